@@ -64,6 +64,7 @@ def regen_all(exe):
     regen_exprtables(None)
     regen_valuetypes(exe)
     regen_takes(exe)
+    regen_coltypes(exe)
 
 
 def regen_exprtables(ctx):
@@ -73,3 +74,9 @@ def regen_exprtables(ctx):
     a = dump(exe_fa, "exprtables", "ExprTables.v")
     b = dump(exe_fc, "exprtables", "ExprTablesMore.v")
     return a or b
+
+
+def regen_coltypes(exe):
+    """Generated/ColTypes.v (properties C13, C14): column type names per ColumnType shape x backend x
+    auto-increment flag, obtained by executing prepare_column_def (harness/src/ddl.rs)"""
+    return dump(exe, "coltypes", "ColTypes.v")
